@@ -23,6 +23,9 @@ pub fn doc() -> Vec<u8> {
     // a pair of page-tree nodes whose eager /Parent references point at each other
     fb.add(10, 0, &Val::dict(vec![("Type", Val::name("Pages")), ("Parent", Val::r(11)), ("Kids", Val::Array(vec![])), ("Count", Val::Int(0))]));
     fb.add(11, 0, &Val::dict(vec![("Type", Val::name("Pages")), ("Parent", Val::r(10)), ("Kids", Val::Array(vec![])), ("Count", Val::Int(0))]));
+    // a pair of composite fonts that name each other as descendant (eager references, like /Parent)
+    fb.add(20, 0, &Val::dict(vec![("Type", Val::name("Font")), ("Subtype", Val::name("Type0")), ("BaseFont", Val::name("A")), ("Encoding", Val::name("Identity-H")), ("DescendantFonts", Val::Array(vec![Val::r(21)]))]));
+    fb.add(21, 0, &Val::dict(vec![("Type", Val::name("Font")), ("Subtype", Val::name("Type0")), ("BaseFont", Val::name("B")), ("Encoding", Val::name("Identity-H")), ("DescendantFonts", Val::Array(vec![Val::r(20)]))]));
     fb.add_objstm(8, &[(5, Val::dict(vec![("In", Val::name("ObjStm"))])), (6, Val::Int(66))], &ObjStmOpts::default());
     // a second object stream: anything that remembers "the" object stream between calls is shared state
     fb.add_objstm(13, &[(14, Val::Int(1414)), (15, Val::dict(vec![("In", Val::name("SecondObjStm"))]))], &ObjStmOpts::default());
@@ -36,7 +39,7 @@ pub fn doc() -> Vec<u8> {
     fb.bytes()
 }
 
-pub const CALLS: &[&str] = &["get<PagesNode>(3)", "get<PagesNode>(4)", "get<PagesNode>(2)", "get<Font>(9)", "get_page(0)", "resolve(5@objstm)", "get<PagesNode>(10:cyclic)", "get<PagesNode>(11:cyclic)", "get<PagesNode>(119:nested-21-deep)", "resolve(14@objstm2)", "resolve(15@objstm2)", "resolve(6@objstm)"];
+pub const CALLS: &[&str] = &["get<PagesNode>(3)", "get<PagesNode>(4)", "get<PagesNode>(2)", "get<Font>(9)", "get_page(0)", "resolve(5@objstm)", "get<PagesNode>(10:cyclic)", "get<PagesNode>(11:cyclic)", "get<PagesNode>(119:nested-21-deep)", "resolve(14@objstm2)", "resolve(15@objstm2)", "resolve(6@objstm)", "get<Font>(20:cyclic)", "get<Font>(21:cyclic)"];
 
 fn ev(e: &pdf::error::PdfError) -> String {
     // peel Try / Shared and also FromPrimitive wrappers: the root cause is what is compared
@@ -81,8 +84,12 @@ where
         6 => node(10),
         7 => node(11),
         8 => node(119),
-        n => match res.resolve(PlainRef { id: [14, 15, 6][n - 9], gen: 0 }) {
+        n @ 9..=11 => match res.resolve(PlainRef { id: [14, 15, 6][n - 9], gen: 0 }) {
             Ok(p) => crate::common::show_prim(&p),
+            Err(e) => ev(&e),
+        },
+        n => match res.get::<Font>(Ref::new(PlainRef { id: [20, 21][n - 12], gen: 0 })) {
+            Ok(f) => format!("Font({:?})", f.name.as_ref().map(|n| n.as_str().to_string())),
             Err(e) => ev(&e),
         },
     }
@@ -525,6 +532,8 @@ pub fn configs(tier: Tier) -> Vec<(Config, usize)> {
             // the mutually referring pair (sequential answer: an error)
             v.push((Config { shared_resolver: shared, cached, plan: vec![vec![6], vec![7]] }, 2));
             v.push((Config { shared_resolver: shared, cached, plan: vec![vec![6], vec![6]] }, 2));
+            v.push((Config { shared_resolver: shared, cached, plan: vec![vec![12], vec![13]] }, 2));
+            v.push((Config { shared_resolver: shared, cached, plan: vec![vec![12], vec![12]] }, 2));
         }
     }
     v
